@@ -23,6 +23,8 @@ EXPLANATION = (
     "NOT decided: counts for all N mod limit, byte-wise concatenation of parts, non-monotonic timestamp histories."
     " Also decided (rules added after the fifth blind round): (R17.4) the archiver instantiates its path template with the record's own _generated value (current time only when it has none) and the record itself."
     " Rules added after the sixth blind round: (R17.5 = R18.3 of C18) transaction control only in tx_cycle; (R17.6) close() finalises unconditionally - the finalising call depends on the resource being open, never on a state flag."
+    " Rules added after the seventh blind round: (R17.7 = R18.6 of C18) the SQLite reader lists every table the writer can create."
+    " (R17.8 = R19.8 of C19) a second Avro container header is never written behind the first (flush() before the first record; defect F19b, fixed)."
 )
 RULE_SUMMARY = "instances: (writer, flush effect) pairs, release sites, __exit__/__del__ definitions, split/rotation statements"
 
@@ -405,6 +407,11 @@ def run(ctx):
 
     # ------------------------------------------------------------------ R17.5 (sibling rule) a failed statement does not take accepted records with it
     ctx.import_rule("C18", "R18.3", "R17.5", "every record the SQLite writer accepted is on disk after close: transaction control is issued only by tx_cycle (a ROLLBACK on an error path discards the batch)")
+    ctx.import_rule("C18", "R18.6", "R17.7", "every record written is readable: the reader lists every table the writer can create (no pattern that hides a legal type name)")
+    # every record written is readable after close, whatever the order of flush() and write(): one Avro container header per file
+    # (the rule function of C19 is called directly: C19 takes R17.4 over from this module, so a mutual import_rule would not end)
+    from .c19 import check_one_container_header as _one_header17
+    _one_header17(ctx, "R17.8")
 
     # ------------------------------------------------------------------ R17.6 close() finalises unconditionally
     ctx.rule("R17.6", "in close() of the buffered writers the finalising call (writer.flush() / fp.flush() / commit) depends only on the resource existing (self.fp, self.writer, "
